@@ -8,7 +8,7 @@ CONSTANTS
   Outcomes = {"ok", "err", "panic"}
   MaxYield = 1
   EnvOps <- EnvOpsDef
-  KillCarriesState = TRUE
+  KillCarriesState = FALSE
   Once = TRUE
   Local = {"A"}
   SweepKillsDraining = {TRUE}
